@@ -25,7 +25,7 @@ func HarnessC05a() {
 	cur, err := NewRoot(&CreateRemoteOptions{BranchFactor: bf, NodeFormat: fmtOf(fm)}).LoadMast(vctx, cfg)
 	verifAssert("C01.new.err", err == nil)
 	md := &symModel{}
-	probe := symKey{verifNondetU64("probe")}
+	probe := symKey{verifNondetKey("probe")}
 	cur, md, _ = applyOps("h", cur, md, cfg, K, 2)
 	for round := 0; round < 2; round++ {
 		r, err := cur.MakeRoot(vctx)
